@@ -177,9 +177,14 @@ func (server *Server) ServeCodec(codec ServerCodec) {
 			})
 		}
 	}
-	// Drain the decode queue first: requests still queued in it add to wg and
-	// touch the stream table, which must not happen once wg.Wait has started.
-	pipeline.Close()
+	// Let the decode queue drain first, in order: requests still queued in it
+	// add to wg and touch the stream table, which must not happen once
+	// wg.Wait has started.
+	drained := make(chan struct{})
+	pipeline.Schedule(func() {
+		close(drained)
+	})
+	<-drained
 	wg.Wait()
 	server.mutex.Lock()
 	server.deleteCodec(codec)
@@ -192,6 +197,7 @@ func (server *Server) ServeCodec(codec ServerCodec) {
 		ctx.stream.Close()
 	}
 	readStream.Close()
+	pipeline.Close()
 }
 
 // deleteCodec closes the specified codec.
@@ -530,11 +536,13 @@ func (server *Server) listen(sock socket.Socket, address string, New NewServerCo
 			}
 			if err == io.EOF || err == io.ErrUnexpectedEOF {
 				if atomic.CompareAndSwapInt32(&svrctx.closed, 0, 1) {
-					// Drain the decode queue before waiting for the handlers
-					// (see ServeCodec).
-					if svrctx.pipeline != nil {
-						svrctx.pipeline.Close()
-					}
+					// Let the decode queue drain before waiting for the
+					// handlers (see ServeCodec).
+					drained := make(chan struct{})
+					svrctx.pipeline.Schedule(func() {
+						close(drained)
+					})
+					<-drained
 					svrctx.wg.Wait()
 					server.mutex.Lock()
 					delete(codecs, svrctx.codec)
@@ -546,6 +554,9 @@ func (server *Server) listen(sock socket.Socket, address string, New NewServerCo
 					}
 					if svrctx.readStream != nil {
 						svrctx.readStream.Close()
+					}
+					if svrctx.pipeline != nil {
+						svrctx.pipeline.Close()
 					}
 				}
 			}
